@@ -11,7 +11,9 @@
      FLN     available_elements_count(): plain reads of tail and head, no flag (the harness adds a yield point) *)
 From RM Require Export RingModel.
 
-Inductive fpc := FIdle | FPL (v : Z) | FPU (r : res) | FCL | FCU (r : res) | FLN.
+Inductive fpc := FIdle | FPL (v : Z) | FPU (v : Z) (r : option Z) | FCL | FCU (r : option Z) | FLN.
+Definition pub_res (v : Z) (r : option Z) : res := match r with Some len => ROk v len | None => RFull v end.
+Definition cons_res (r : option Z) : res := match r with Some v => RGot v | None => REmpty end.
 
 Record fsst := {
   fhead : Z; ftail : Z; flock : bool; fbuf : Z -> Z; fthr : nat -> fpc;
@@ -34,24 +36,27 @@ Definition fstep (s : fsst) (t : nat) : fsst :=
       let len := norm (ftail s - fhead s) in
       if len <? N then
         {| fhead := fhead s; ftail := norm (ftail s + 1); flock := true; fbuf := updz (fbuf s) (ftail s mod N) v;
-           fthr := upd (fthr s) t (FPU (ROk v (len + 1)));
+           fthr := upd (fthr s) t (FPU v (Some (len + 1)));
            fpublished := fpublished s ++ [v]; fdelivered := fdelivered s; flog := flog s |}
       else
-        {| fhead := fhead s; ftail := ftail s; flock := true; fbuf := fbuf s; fthr := upd (fthr s) t (FPU (RFull v));
+        {| fhead := fhead s; ftail := ftail s; flock := true; fbuf := fbuf s; fthr := upd (fthr s) t (FPU v None);
            fpublished := fpublished s; fdelivered := fdelivered s; flog := flog s |}
-  | FPU r | FCU r =>
+  | FPU v r =>
       {| fhead := fhead s; ftail := ftail s; flock := false; fbuf := fbuf s; fthr := upd (fthr s) t FIdle;
-         fpublished := fpublished s; fdelivered := fdelivered s; flog := flog s ++ [(t, r)] |}
+         fpublished := fpublished s; fdelivered := fdelivered s; flog := flog s ++ [(t, pub_res v r)] |}
+  | FCU r =>
+      {| fhead := fhead s; ftail := ftail s; flock := false; fbuf := fbuf s; fthr := upd (fthr s) t FIdle;
+         fpublished := fpublished s; fdelivered := fdelivered s; flog := flog s ++ [(t, cons_res r)] |}
   | FCL =>
       if flock s then s else
       let len := norm (ftail s - fhead s) in
       if 0 <? len then
         let v := fbuf s (fhead s mod N) in
         {| fhead := norm (fhead s + 1); ftail := ftail s; flock := true; fbuf := fbuf s;
-           fthr := upd (fthr s) t (FCU (RGot v));
+           fthr := upd (fthr s) t (FCU (Some v));
            fpublished := fpublished s; fdelivered := fdelivered s ++ [v]; flog := flog s |}
       else
-        {| fhead := fhead s; ftail := ftail s; flock := true; fbuf := fbuf s; fthr := upd (fthr s) t (FCU REmpty);
+        {| fhead := fhead s; ftail := ftail s; flock := true; fbuf := fbuf s; fthr := upd (fthr s) t (FCU None);
            fpublished := fpublished s; fdelivered := fdelivered s; flog := flog s |}
   | FLN =>
       {| fhead := fhead s; ftail := ftail s; flock := flock s; fbuf := fbuf s; fthr := upd (fthr s) t FIdle;
@@ -73,7 +78,7 @@ Definition fobs (s : fsst) (t : nat) : list Z :=
   match fthr s t with
   | FIdle => skip t
   | FPL _ | FCL => if flock s then acc t FL_GUARD K_CAS 1 (-1) false else acc t FL_GUARD K_CAS 0 1 true
-  | FPU _ | FCU _ => acc t FL_GUARD K_STORE 0 0 true
+  | FPU _ _ | FCU _ => acc t FL_GUARD K_STORE 0 0 true
   | FLN => acc t FL_GUARD K_YIELD 0 (-1) true
   end.
 
@@ -92,7 +97,7 @@ Section FSInv.
 Variable N : Z.
 Hypothesis Npos : 0 < N.
 
-Definition holds_lock (p : fpc) : bool := match p with FPU _ | FCU _ => true | _ => false end.
+Definition holds_lock (p : fpc) : bool := match p with FPU _ _ | FCU _ => true | _ => false end.
 
 Record FInv (s : fsst) : Prop := {
   f_ord  : 0 <= fhead s <= ftail s /\ ftail s <= fhead s + N;
@@ -103,13 +108,26 @@ Record FInv (s : fsst) : Prop := {
   (* mutual exclusion: at most one thread between a successful CAS and its store, and then the flag is set *)
   f_mutex: forall t u, holds_lock (fthr s t) = true -> holds_lock (fthr s u) = true -> t = u;
   f_flag : forall t, holds_lock (fthr s t) = true -> flock s = true;
-  f_free : flock s = true -> exists t, holds_lock (fthr s t) = true
+  f_free : flock s = true -> exists t, holds_lock (fthr s t) = true;
+  (* the response logs lag behind the ghost lists by exactly the effect of the current flag holder *)
+  f_sync : flock s = false -> fpublished s = accepted_of (flog s) /\ fdelivered s = yielded_of (flog s);
+  f_lag  : forall t, match fthr s t with
+                     | FPU v (Some _) => fpublished s = accepted_of (flog s) ++ [v] /\ fdelivered s = yielded_of (flog s)
+                     | FCU (Some v) => fpublished s = accepted_of (flog s) /\ fdelivered s = yielded_of (flog s) ++ [v]
+                     | FPU _ None | FCU None => fpublished s = accepted_of (flog s) /\ fdelivered s = yielded_of (flog s)
+                     | _ => True
+                     end
 }.
 
 Lemma finv_init : FInv finit.
-Proof. constructor; cbn; try lia; auto; try discriminate; intros; lia. Qed.
+Proof. constructor; cbn; try lia; auto; try discriminate; intros; try lia; exact I. Qed.
 
 Ltac fs := cbn [fhead ftail flock fbuf fthr fpublished fdelivered flog fset] in *.
+
+Lemma facc_snoc l t r : accepted_of (l ++ [(t, r)]) = accepted_of l ++ match r with ROk v _ => [v] | _ => [] end.
+Proof. unfold accepted_of. rewrite flat_map_app. cbn. now rewrite app_nil_r. Qed.
+Lemma fyld_snoc l t r : yielded_of (l ++ [(t, r)]) = yielded_of l ++ match r with RGot v => [v] | _ => [] end.
+Proof. unfold yielded_of. rewrite flat_map_app. cbn. now rewrite app_nil_r. Qed.
 
 Lemma finv_start s t o : FInv s -> FInv (fstart s t o).
 Proof.
@@ -118,17 +136,26 @@ Proof.
   - intros u w. upd_cases t u; upd_cases t w; auto; destruct o; cbn; try discriminate.
   - intros u. upd_cases t u; eauto. destruct o; discriminate.
   - intros Hl. destruct (f_free0 Hl) as [u Hu]. exists u. upd_cases t u; auto. rewrite E in Hu. discriminate.
+  - intros u. upd_cases t u; [destruct o; exact I|apply f_lag0].
 Qed.
 
 Lemma finv_step s t : FInv s -> FInv (fstepZ N s t).
 Proof.
-  intros I. unfold fstepZ, fstep, idz. pose proof I as I0. destruct I as [Ho Hlp Hld Hb Hd Hm Hf Hfr].
+  intros I. unfold fstepZ, fstep, idz. pose proof I as I0. destruct I as [Ho Hlp Hld Hb Hd Hm Hf Hfr Hs Hg].
   destruct (fthr s t) eqn:E; [exact I0| | | | |].
   - (* FPL *)
     destruct (flock s) eqn:El; [exact I0|].
     assert (Hnone : forall u, holds_lock (fthr s u) = false).
     { intros u. destruct (holds_lock (fthr s u)) eqn:Eh; auto. specialize (Hf u Eh). congruence. }
-    destruct (Z.ltb_spec (ftail s - fhead s) N) as [Hlt|Hge]; constructor; fs; auto; try lia.
+    destruct (Hs eq_refl) as [Hsa Hsy].
+    assert (Hlag : forall x u, u <> t ->
+              match fthr s u with
+              | FPU v0 (Some _) => x = accepted_of (flog s) ++ [v0] /\ fdelivered s = yielded_of (flog s)
+              | FCU (Some v0) => x = accepted_of (flog s) /\ fdelivered s = yielded_of (flog s) ++ [v0]
+              | FPU _ None | FCU None => x = accepted_of (flog s) /\ fdelivered s = yielded_of (flog s)
+              | _ => True end).
+    { intros x u Hn. specialize (Hnone u). destruct (fthr s u); cbn in Hnone; try discriminate; exact I. }
+    destruct (Z.ltb_spec (ftail s - fhead s) N) as [Hlt|Hge]; constructor; fs; auto; try lia; try discriminate.
     + rewrite app_length; cbn; lia.
     + intros i Hi. destruct (Z.eq_dec i (ftail s)) as [->|Hn].
       * rewrite updz_same. replace (ftail s) with (Z.of_nat (length (fpublished s))) at 1 by lia. now rewrite nthz_app_r.
@@ -139,20 +166,32 @@ Proof.
     + intros u w. upd_cases t u; upd_cases t w; auto; cbn; intros; try congruence;
         match goal with H : holds_lock (fthr s ?x) = true |- _ => rewrite Hnone in H; discriminate end.
     + exists t. now rewrite upd_same.
+    + intros u. upd_cases t u; [split; congruence|apply Hlag; assumption].
     + intros u w. upd_cases t u; upd_cases t w; auto; cbn; intros; try congruence;
         match goal with H : holds_lock (fthr s ?x) = true |- _ => rewrite Hnone in H; discriminate end.
     + exists t. now rewrite upd_same.
+    + intros u. upd_cases t u; [split; congruence|apply Hlag; assumption].
   - (* FPU *)
     assert (Ht : holds_lock (fthr s t) = true) by (rewrite E; reflexivity).
+    pose proof (Hg t) as Hgt. rewrite E in Hgt.
+    assert (Hnew : fpublished s = accepted_of (flog s ++ [(t, pub_res v r)]) /\ fdelivered s = yielded_of (flog s ++ [(t, pub_res v r)])).
+    { rewrite facc_snoc, fyld_snoc. destruct r; cbn; rewrite ?app_nil_r; exact Hgt. }
     constructor; fs; auto.
     + intros u w. upd_cases t u; upd_cases t w; auto; cbn; try discriminate.
     + intros u. upd_cases t u; cbn; [discriminate|]. intros Hu. exfalso. apply n. apply Hm; assumption.
     + discriminate.
+    + intros u. upd_cases t u; [exact I|].
+      assert (Hnu : holds_lock (fthr s u) = false).
+      { destruct (holds_lock (fthr s u)) eqn:Eh; auto. exfalso. apply n. apply Hm; assumption. }
+      destruct (fthr s u); cbn in Hnu; try discriminate; exact I.
   - (* FCL *)
     destruct (flock s) eqn:El; [exact I0|].
     assert (Hnone : forall u, holds_lock (fthr s u) = false).
     { intros u. destruct (holds_lock (fthr s u)) eqn:Eh; auto. specialize (Hf u Eh). congruence. }
-    destruct (Z.ltb_spec 0 (ftail s - fhead s)) as [Hlt|Hge]; constructor; fs; auto; try lia.
+    destruct (Hs eq_refl) as [Hsa Hsy].
+    assert (Hlag : forall u, u <> t -> forall (P : fpc -> Prop), (forall p, holds_lock p = false -> P p) -> P (fthr s u)).
+    { intros u Hn P HP. apply HP. apply Hnone. }
+    destruct (Z.ltb_spec 0 (ftail s - fhead s)) as [Hlt|Hge]; constructor; fs; auto; try lia; try discriminate.
     + rewrite app_length; cbn; lia.
     + intros i Hi. apply Hb. lia.
     + rewrite Hd. replace (Z.to_nat (fhead s + 1)) with (S (Z.to_nat (fhead s))) by lia.
@@ -160,20 +199,34 @@ Proof.
     + intros u w. upd_cases t u; upd_cases t w; auto; cbn; intros; try congruence;
         match goal with H : holds_lock (fthr s ?x) = true |- _ => rewrite Hnone in H; discriminate end.
     + exists t. now rewrite upd_same.
+    + intros u. upd_cases t u; [split; congruence|].
+      specialize (Hnone u). destruct (fthr s u); cbn in Hnone; try discriminate; exact I.
     + intros u w. upd_cases t u; upd_cases t w; auto; cbn; intros; try congruence;
         match goal with H : holds_lock (fthr s ?x) = true |- _ => rewrite Hnone in H; discriminate end.
     + exists t. now rewrite upd_same.
+    + intros u. upd_cases t u; [split; congruence|].
+      specialize (Hnone u). destruct (fthr s u); cbn in Hnone; try discriminate; exact I.
   - (* FCU *)
     assert (Ht : holds_lock (fthr s t) = true) by (rewrite E; reflexivity).
+    pose proof (Hg t) as Hgt. rewrite E in Hgt.
+    assert (Hnew : fpublished s = accepted_of (flog s ++ [(t, cons_res r)]) /\ fdelivered s = yielded_of (flog s ++ [(t, cons_res r)])).
+    { rewrite facc_snoc, fyld_snoc. destruct r; cbn; rewrite ?app_nil_r; exact Hgt. }
     constructor; fs; auto.
     + intros u w. upd_cases t u; upd_cases t w; auto; cbn; try discriminate.
     + intros u. upd_cases t u; cbn; [discriminate|]. intros Hu. exfalso. apply n. apply Hm; assumption.
     + discriminate.
+    + intros u. upd_cases t u; [exact I|].
+      assert (Hnu : holds_lock (fthr s u) = false).
+      { destruct (holds_lock (fthr s u)) eqn:Eh; auto. exfalso. apply n. apply Hm; assumption. }
+      destruct (fthr s u); cbn in Hnu; try discriminate; exact I.
   - (* FLN *)
-    constructor; fs; auto.
+    assert (El : accepted_of (flog s ++ [(t, RLen (ftail s - fhead s))]) = accepted_of (flog s)) by (rewrite facc_snoc; cbn; now rewrite app_nil_r).
+    assert (Ey : yielded_of (flog s ++ [(t, RLen (ftail s - fhead s))]) = yielded_of (flog s)) by (rewrite fyld_snoc; cbn; now rewrite app_nil_r).
+    constructor; fs; rewrite ?El, ?Ey; auto.
     + intros u w. upd_cases t u; upd_cases t w; auto; cbn; try discriminate.
     + intros u. upd_cases t u; cbn; [discriminate|]. apply Hf.
     + intros Hl. destruct (Hfr Hl) as [u Hu]. exists u. upd_cases t u; auto. rewrite E in Hu. discriminate.
+    + intros u. upd_cases t u; [exact I|apply Hg].
 Qed.
 
 Theorem finv_reachable evs : FInv (fold_left (fexecZ N) evs finit).
@@ -183,3 +236,80 @@ Proof.
 Qed.
 
 End FSInv.
+
+(* ------------------------------------------------------------------------------------------ consequences *)
+Section FSProps.
+Variable N : Z.
+Hypothesis Npos : 0 < N.
+Local Notation run evs := (fold_left (fexecZ N) evs finit).
+
+Lemma prefix_of_prefix {A} (p l y : list A) n : l = firstn n p -> (exists x, l = y ++ x) -> y = firstn (length y) p.
+Proof.
+  intros Hl [x Hy].
+  assert (Hp : y = firstn (length y) l).
+  { rewrite Hy, firstn_app, Nat.sub_diag, firstn_all. cbn. now rewrite app_nil_r. }
+  assert (Hlen : (length y <= n)%nat).
+  { assert (length y <= length l)%nat by (rewrite Hy, app_length; lia).
+    assert (length l <= n)%nat by (rewrite Hl; apply firstn_le_length). lia. }
+  rewrite Hp at 1. rewrite Hl, firstn_firstn. f_equal. lia.
+Qed.
+
+(* what consumers were handed (responses) is a prefix of what was accepted at the linearisation points *)
+Theorem fs_yielded_prefix evs :
+  let s := run evs in yielded_of (flog s) = firstn (length (yielded_of (flog s))) (fpublished s).
+Proof.
+  cbn zeta. pose proof (finv_reachable N Npos evs) as I. set (s := run evs) in *.
+  apply (prefix_of_prefix _ (fdelivered s) _ (Z.to_nat (fhead s))).
+  - apply (f_del _ _ I).
+  - destruct (flock s) eqn:El.
+    + destruct (f_free _ _ I El) as [t Ht]. pose proof (f_lag _ _ I t) as Hg.
+      destruct (fthr s t) as [| |v [len|]| |[v|]|] eqn:E; cbn in Ht; try discriminate.
+      * exists []. rewrite app_nil_r. apply Hg.
+      * exists []. rewrite app_nil_r. apply Hg.
+      * exists [v]. apply Hg.
+      * exists []. rewrite app_nil_r. apply Hg.
+    + exists []. rewrite app_nil_r. apply (f_sync _ _ I El).
+Qed.
+
+(* responses say Ok only for accepted values, in order: the Ok-log is a prefix of the accepted list *)
+Theorem fs_accepted_prefix evs :
+  let s := run evs in accepted_of (flog s) = firstn (length (accepted_of (flog s))) (fpublished s).
+Proof.
+  cbn zeta. pose proof (finv_reachable N Npos evs) as I. set (s := run evs) in *.
+  apply (prefix_of_prefix _ (fpublished s) _ (length (fpublished s))).
+  - now rewrite firstn_all.
+  - destruct (flock s) eqn:El.
+    + destruct (f_free _ _ I El) as [t Ht]. pose proof (f_lag _ _ I t) as Hg.
+      destruct (fthr s t) as [| |v [len|]| |[v|]|] eqn:E; cbn in Ht; try discriminate.
+      * exists [v]. apply Hg.
+      * exists []. rewrite app_nil_r. apply Hg.
+      * exists []. rewrite app_nil_r. apply Hg.
+      * exists []. rewrite app_nil_r. apply Hg.
+    + exists []. rewrite app_nil_r. apply (f_sync _ _ I El).
+Qed.
+
+Theorem fs_capacity evs : let s := run evs in 0 <= ftail s - fhead s <= N.
+Proof. cbn zeta. pose proof (f_ord _ _ (finv_reachable N Npos evs)). lia. Qed.
+
+(* full and empty answers are exact: decided and applied in one step, under the flag *)
+Theorem fs_full_exact s t v :
+  fthr s t = FPL v -> flock s = false ->
+  (fthr (fstepZ N s t) t = FPU v None <-> N <= ftail s - fhead s) /\
+  (fthr (fstepZ N s t) t = FPU v (Some (ftail s - fhead s + 1)) <-> ftail s - fhead s < N).
+Proof.
+  intros E El. unfold fstepZ, fstep, idz. rewrite E, El.
+  destruct (Z.ltb_spec (ftail s - fhead s) N); cbn [fthr]; rewrite upd_same; split; split; intros H0; try congruence; try lia.
+Qed.
+Theorem fs_empty_exact s t :
+  fthr s t = FCL -> flock s = false ->
+  (fthr (fstepZ N s t) t = FCU None <-> ftail s - fhead s <= 0).
+Proof.
+  intros E El. unfold fstepZ, fstep, idz. rewrite E, El.
+  destruct (Z.ltb_spec 0 (ftail s - fhead s)); cbn [fthr]; rewrite upd_same; split; intros H0; try congruence; try lia.
+Qed.
+
+Theorem fs_mutual_exclusion evs t u :
+  let s := run evs in holds_lock (fthr s t) = true -> holds_lock (fthr s u) = true -> t = u.
+Proof. cbn zeta. apply (f_mutex _ _ (finv_reachable N Npos evs)). Qed.
+
+End FSProps.
